@@ -24,8 +24,8 @@ RULE = ('One responder with 1-3 services receives an arrival schedule of 1-8 por
         'protected-class answer, or a train of >= 2 packets.')
 ASSUMPTIONS = [
     'which packets were assembled into one query, and when, is observed at QueryHandler.handle_assembled_query (wrapped from the harness)',
-    'for truncated trains only: answers are required within 1.2 s after the hold ends and never before it; the 1 s protection lower '
-    'bound is not asserted for trains (the statement does not fix which arrival instant counts)',
+    'a truncated train counts as arriving when it is assembled (continuation packet or end of the 400-500 ms hold): the jitter, '
+    'aggregation and one-second-protection windows are measured from that instant',
     'ties at one virtual instant are ordered by a global sequence number, never by timestamp',
 ]
 BUDGET = {'quick': {'examples': 2500}, 'thorough': {'examples': 20000, 'shards': 16}}
@@ -188,8 +188,10 @@ def check(case: Dict[str, Any]) -> Dict[str, Any]:
             t = L['t']
             if L['probe']:
                 cls, cover, just = 'immediate', (t - EPS, t + EPS), (t - EPS, t + EPS)
-            elif L['train']:
-                cls, cover, just = 'train', (t - EPS, t + 1200 + EPS), (t - EPS, t + 1200 + EPS)
+            elif L['train'] and s is not None and not (t - s[0] < 1000) and L['packets'][-1]['t_ms'] - s[0] < 1000:
+                # the sighting is older than one second when the train is assembled but was not when its last packet arrived:
+                # the statement does not say which instant decides, so either treatment (aggregated or protected) is accepted
+                cls, cover, just = 'train-either', (t - EPS, t + 1200 + EPS), (t + 20 - EPS, t + 1200 + EPS)
             elif s is not None and t - s[0] < 1000:
                 cls = 'protected'
                 cover = (s[0] + 1000 - EPS, t + 1200 + EPS)
